@@ -101,7 +101,7 @@ class RM:
     """Static part of the reference model for one scenario."""
 
     def __init__(self, scenario, model_descs=None):
-        from .stubs import model_desc
+        from .stubs import model_desc, child_desc
         self.sc = scenario
         self.until = scenario["until"]
         self.paths = group_paths(scenario)
@@ -111,11 +111,14 @@ class RM:
         self.depth = {sid: len(p) for sid, p in self.path_of.items()}
         self.type = {}
         self.cls = {}
+        self.cls_child = {}      # sid -> classifier of the child entities' model
         for s in self.sims:
             t = s["type"] if not s.get("omit_type") else "time-based"
             self.type[s["sid"]] = t
             d = s.get("desc") or model_desc(s["type"], s.get("meta_style", 0), s.get("any_inputs", False))
             self.cls[s["sid"]] = classify(d, t)
+            if s.get("child"):
+                self.cls_child[s["sid"]] = classify(child_desc(s["type"], s.get("meta_style", 0)), t)
         self.conns: List[Conn] = []
         self.verdicts: List[Optional[str]] = []   # per connect call: None=accept, else reason
         self.async_links = []                     # (u, v): v may call set_data/get_data on u
@@ -131,8 +134,9 @@ class RM:
             weak = bool(c.get("weak"))
             init = c.get("init")
             reasons = []
-            _, u_trig, u_out, u_pers = self.cls[u]
-            v_in, v_trig, _, _ = self.cls[v]
+            # (an entity is judged by its own model: children have another one than their parent)
+            _, u_trig, u_out, u_pers = (self.cls_child if c.get("sc") else self.cls)[u]
+            v_in, v_trig, _, _ = (self.cls_child if c.get("dc") else self.cls)[v]
             for pi, (ua, va) in enumerate(c.get("pairs", [])):
                 why = []
                 if not u_out(ua):
@@ -148,8 +152,8 @@ class RM:
                     reasons.append((pi, why))
                     continue
                 e = Conn()
-                e.u, e.ue, e.ua = u, c.get("src_eid") or f"e{c.get('se', 0)}", ua
-                e.v, e.ve, e.va = v, c.get("dst_eid") or f"e{c.get('de', 0)}", va
+                e.u, e.ue, e.ua = u, c.get("src_eid") or (f"e{c.get('se', 0)}" + ("c" if c.get("sc") else "")), ua
+                e.v, e.ve, e.va = v, c.get("dst_eid") or (f"e{c.get('de', 0)}" + ("c" if c.get("dc") else "")), va
                 e.k, e.weak = k, weak
                 e.init = init[ua] if has_init else NOINIT
                 e.trig = v_trig(va)
